@@ -185,6 +185,13 @@ U(id="vm.op.length", entry="h_vo_length", defines=["-DVO_LENGTH"], assumes=[A_AC
   clause="JOP_LENGTH (length ds): janet_lengthv is called exactly once with the operand and its result goes to the destination" + NEXT3,
   mutants=[M("operand-is-dest", "stack[A] = janet_lengthv(stack[E]);", "stack[A] = janet_lengthv(stack[A]);", "receives the operand")])
 
+# two-instruction variants: the frame must be committed before the call that may raise (error attribution: C02)
+for tag, dfn, anchor in [("length", "VO_LENGTH", "    VM_OP(JOP_LENGTH)\n    vm_commit();\n"), ("in", "VO_IN", "    VM_OP(JOP_IN)\n    vm_commit();\n"), ("get", "VO_GET", "    VM_OP(JOP_GET)\n    vm_commit();\n"),
+                         ("put", "VO_PUT", "    VM_OP(JOP_PUT)\n    vm_commit();\n")]:
+    U(id="vm.op.%s.commit" % tag, entry=("h_vo_get_like" if tag in ("in", "get", "next") else "h_vo_%s" % tag), defines=["-D" + dfn, "-DVO_TWO_STEP"], assumes=[A_ACC, "a NOOP is executed first so that the interpreter's pc differs from the frame's pc when the instruction starts"],
+      clause="JOP_%s after another instruction: the frame's pc is committed to this instruction before the data-access function (which may raise) is called - an error is attributed to the form that raised it" % tag.upper(),
+      mutants=[M("commit-dropped", anchor, anchor.replace("    vm_commit();\n", ""), "committed before")])
+
 # ---------------------------------------------------------------- group 5: moves, loads, jumps, typecheck, error, return
 U(id="vm.op.move", entry="h_vo_move", defines=["-DVO_MOVE"],
   clause="JOP_MOVE_NEAR (A <- 16-bit register E) and JOP_MOVE_FAR (16-bit register E <- A): the destination slot holds the source slot's value unchanged; no other slot changes; next instruction",
